@@ -60,6 +60,20 @@ let handle fields impl : string option * string list =
     let m = show_bytes r in
     let canonical = match r with Ok c -> ub (encode_utp_content ver c) = ub data | _ -> false in
     (Some m, dec_monitors "single-item-stream" m impl canonical)
+  | ["hoc"; nk; h] ->
+    (* handleOfferedContents: enqueue iff the whole stream decodes to exactly nk items (C15_offered_contents_whole_stream) *)
+    let data = b (Util.bytes_of_hex h) in
+    let m = (match handle_offered_contents (Obj.magic (Util.nat_of_int (int_of_string nk))) data with
+      | Ok (Some l) -> "ok " ^ Util.string_of_items (ubl l)
+      | Ok None -> "ok none"
+      | Err e -> Printf.sprintf "err %d" (int_n e)
+      | Panic -> "panic") in
+    let fails =
+      if starts impl "ok" && impl <> m then ["offered-contents-enqueued-from-malformed-or-miscounted-stream impl=" ^ impl ^ " spec=" ^ m]
+      else if starts impl "panic" then ["offered-contents-panics " ^ impl]
+      else if starts impl "err" && starts m "ok" then ["offered-contents-rejects-wellformed-stream spec=" ^ m]
+      else [] in
+    (Some m, fails)
   (* monitors: statements of the property evaluated on implementation observations only *)
   | ["rt"; items] ->
     (* C15_roundtrip on the implementation: decode(encode l) = l *)
